@@ -30,7 +30,7 @@ func init() {
 	})
 }
 
-var annotKinds = []string{"hint", "hint", "detail", "detail", "hintf", "detailf", "telemetry0", "issuelinkd", "issuelinku", "issuelink", "telemetry", "tags", "tagsafe", "domain", "assertion", "http", "grpc", "safedetails", "handleddomain", "domainnone", "hdwrap", "hdwrap"}
+var annotKinds = []string{"hint", "hint", "detail", "detail", "hintf", "detailf", "telemetry0", "issuelinkd", "issuelinku", "issuelink", "telemetry", "tags", "tagsafe", "domain", "assertion", "http", "grpc", "safedetails", "handleddomain", "domainnone", "domainraw", "hdwrap", "hdwrap"}
 
 var c19Words = []string{"h1", "h2", "", "h1", "k", "See: u", model.AssertHint + model.Referral, "d", "h2"}
 
@@ -142,6 +142,15 @@ func runC19(c *core.Ctx) {
 	compareAnn(got, want, func(field, gs, ws string) {
 		c.Violate("accessor/"+field, "aggregation accessor differs from the model", fmt.Sprintf("%s\n%s: got %s\n   want %s", t, field, gs, ws))
 	})
+	// the predicates derived from the domain: NotInDomain(e, own domain ...) is false, NotInDomain(e, others) true,
+	// EnsureNotInDomain keeps an error that is outside the forbidden domains and moves one that is inside
+	if p := core.Try(func() {
+		if nd := obs.Annotations(e)["notindomain"]; nd != "false false true true true true" {
+			c.Violate("accessor/NotInDomain", "NotInDomain / EnsureNotInDomain disagree with GetDomain", fmt.Sprintf("%s\n%s", t, nd))
+		}
+	}); p != nil {
+		c.Violate("panic/NotInDomain", "NotInDomain / EnsureNotInDomain panicked", fmt.Sprintf("%s\n%v", t, p))
+	}
 	if fh := errors.FlattenHints(e); fh != strings.Join(got.Hints, "\n--\n") {
 		c.Violate("flatten/hints", "FlattenHints is not the hints joined by a '--' line", fmt.Sprintf("%s\n%q", t, fh))
 	}
